@@ -196,13 +196,21 @@ def run(p, led, tier):
                 led.fail("C14-R3", key, where(release, n), "lock state written without the caller having been tested to be the owner: a foreign operation's lock can be disturbed")
     if relall is None:
         raise AnchorError("release_all_resources not found")
-    fors = [n for n in walk_no_nested(relall.node) if isinstance(n, ast.For)]
-    okiter = [f for f in fors if mentions_attr(f.iter, RECORD)]
+    rloops = _record_loops(relall)
     key = "CellCycleController.release_all_resources ▸ iteration domain"
-    if fors and len(okiter) == len(fors):
-        led.ok("C14-R3", key, where(relall, fors[0]), f"iterates `{short(fors[0].iter)}` — the operation's own record only")
+    other_loops = [n for n in walk_no_nested(relall.node) if isinstance(n, (ast.For, ast.While)) and not any(n is l or _within(n, l) for l in rloops)]
+    if rloops and not other_loops:
+        led.ok("C14-R3", key, where(relall, rloops[0]), f"walks `{short(rloops[0].iter if isinstance(rloops[0], ast.For) else rloops[0].test)}` — derived from the operation's own record only")
     else:
         led.fail("C14-R3", key, where(relall, relall.node), "release-all iterates something other than the operation's own record")
+    key = "CellCycleController.release_all_resources ▸ visits every recorded resource"
+    ab = _abandons(relall)
+    if ab:
+        led.fail("C14-R2", key, where(relall, ab[0][1]),
+                 f"`{type(ab[0][1]).__name__.lower()}` leaves the clean-up loop early: once one release fails (e.g. the resource was pre-empted) the remaining resources stay owned by the ended operation",
+                 witness="operation holds db, then pre-emptable cache; cache is pre-empted; kill/complete leaves db owned by the dead operation")
+    else:
+        led.ok("C14-R2", key, where(relall, relall.node), "no break/return leaves the loop over the record: a failed release of one resource does not skip the others")
     # the owner passed to release is the operation's id
     relres = p.find_method(ctrl, "release_resource")
     if relres:
@@ -373,19 +381,68 @@ def run(p, led, tier):
 
 
 # ----------------------------------------------------------------------
-def _releases_all(p, res, g, ctrl, depth=0):
-    """g iterates the operation's record and calls (directly or through a resolved helper) ResourceLock.release"""
-    if depth > 3:
-        return False
+def _record_loops(g):
+    """outermost loops of g that walk the operation's record: `for … in <mentions RECORD>` or
+    `while <var>` where var was defined from an expression mentioning RECORD"""
+    from ..loader import parent as _parent
+    out = []
+    derived = set()
     for n in walk_no_nested(g.node):
-        if isinstance(n, ast.For) and mentions_attr(n.iter, RECORD):
-            for c in ast.walk(n):
-                if isinstance(c, ast.Call):
-                    for t in res.resolve_call(g, c):
-                        if t.qual == "ResourceLock.release":
-                            return True
-                        if any(t2.qual == "ResourceLock.release" for c2 in ast.walk(t.node) if isinstance(c2, ast.Call) for t2 in res.resolve_call(t, c2)):
-                            return True
+        if isinstance(n, ast.Assign) and isinstance(n.targets[0], ast.Name) and mentions_attr(n.value, RECORD):
+            derived.add(n.targets[0].id)
+    for n in walk_no_nested(g.node):
+        if isinstance(n, ast.For) and (mentions_attr(n.iter, RECORD) or any(mentions_name(n.iter, d) for d in derived)):
+            out.append(n)
+        elif isinstance(n, ast.While) and (mentions_attr(n.test, RECORD) or any(mentions_name(n.test, d) for d in derived)):
+            out.append(n)
+    # keep outermost only
+    def inside(x, y):
+        q = _parent(x)
+        while q is not None:
+            if q is y:
+                return True
+            q = _parent(q)
+        return False
+    return [l for l in out if not any(inside(l, o) for o in out if o is not l)]
+
+
+def _releases_all(p, res, g, ctrl, depth=0):
+    """g walks the operation's record in a loop and calls (directly or through a resolved helper) ResourceLock.release"""
+    for lp in _record_loops(g):
+        for c in ast.walk(lp):
+            if isinstance(c, ast.Call):
+                for t in res.resolve_call(g, c):
+                    if t.qual == "ResourceLock.release":
+                        return True
+                    if any(t2.qual == "ResourceLock.release" for c2 in ast.walk(t.node) if isinstance(c2, ast.Call) for t2 in res.resolve_call(t, c2)):
+                        return True
+    return False
+
+
+def _abandons(g):
+    """break / return statements that leave an outermost record loop early: [(loop, stmt)]"""
+    from ..loader import parent as _parent
+    out = []
+    for lp in _record_loops(g):
+        for n in ast.walk(lp):
+            if isinstance(n, ast.Return):
+                out.append((lp, n))
+            elif isinstance(n, ast.Break):
+                q = _parent(n)
+                while q is not None and not isinstance(q, (ast.For, ast.While)):
+                    q = _parent(q)
+                if q is lp:
+                    out.append((lp, n))
+    return out
+
+
+def _within(x, y):
+    from ..loader import parent as _parent
+    q = _parent(x)
+    while q is not None:
+        if q is y:
+            return True
+        q = _parent(q)
     return False
 
 
@@ -420,9 +477,11 @@ def _callers_release_fully(p, res, m, ctrl):
         return False
     for fn in (relall, m):
         for n in walk_no_nested(fn.node):
-            if isinstance(n, ast.While) and (mentions_attr(n.test, "owner") or mentions_attr(n.test, "hold_count") or mentions_attr(n.test, RECORD)):
-                if any(isinstance(c, ast.Call) and isinstance(c.func, ast.Attribute) and c.func.attr in ("release", "release_resource") for c in ast.walk(n)):
-                    return True
+            if isinstance(n, ast.While):
+                tests = [n.test] + [x.test for x in ast.walk(n) if isinstance(x, (ast.If, ast.While))]
+                if any(mentions_attr(t, "owner") or mentions_attr(t, "hold_count") or mentions_attr(t, RECORD) for t in tests):
+                    if any(isinstance(c, ast.Call) and isinstance(c.func, ast.Attribute) and c.func.attr in ("release", "release_resource") for c in ast.walk(n)):
+                        return True
     return False
 
 
